@@ -18,6 +18,7 @@ type Stats struct {
 	Viol            []FoundViolation
 	Samples         []string
 	ViolatingStates int64
+	WallSeconds     float64
 }
 
 // FoundViolation is a violation with its replayable history.
